@@ -34,7 +34,8 @@ FILES_IN = {'a.tex': 'MRKINA', 'c': 'MRKINC', 'd.latex': 'MRKIND', 'e.tex': 'MRK
             'e.latex': 'MRKINELATEX', 'sub/b.tex': 'MRKINB', 'sub/g': 'MRKING',
             # files that themselves include others (resolved against the input directory, not
             # against the including file)
-            'n.tex': 'MRKINN \\input{../out/q} \\input{a} \\input{sub/n2}',
+            # (q and r exist only outside, next to the outside link 'lnk' that points at n.tex)
+            'n.tex': 'MRKINN \\input{../out/q} \\input{a} \\input{sub/n2} \\input{q} \\input{r}',
             'sub/n2.tex': 'MRKINZ \\input{../../out/q} \\input{../top} \\include{../tex2/o}'}
 FILES_OUT = {'tex2/o.tex': 'MRKOUTO', 'tex2/a.tex': 'MRKOUTA2', 'texts/p.tex': 'MRKOUTP',
              'out/q.tex': 'MRKOUTQ', 'out/r': 'MRKOUTR', 'out/a.tex': 'MRKOUTA', 'top.tex': 'MRKOUTTOP',
@@ -219,13 +220,23 @@ def make_name(real, comps, absmode):
     return name
 
 
+# names every layout is asked for besides the drawn ones: the including file reached through an
+# outside link (legitimate when the link is there: it resolves inside), directly, and via sub/..
+FIXED_NAMES = [(['..', 'out', 'lnk'], None), (['..', 'out', 'lnk.tex'], None),
+               (['out', 'lnk.tex'], 'base'), (['n'], None), (['sub', '..', 'n.tex'], None),
+               (['sub', 'n2'], None)]
+
+
 def check_layout(layout, res):
     real, d, markers = build(layout)
     try:
-        for i, (comps, absmode) in enumerate(layout['names']):
+        allnames = [(list(c), a) for c, a in layout['names']]
+        if len(allnames) > 1 or not layout.get('replay'):
+            allnames += [x for x in FIXED_NAMES if x not in allnames]
+        for i, (comps, absmode) in enumerate(allnames):
             name = make_name(real, comps, absmode)
             for via in ('read_input_file', 'input', 'include'):
-                if via != 'read_input_file' and (i % 3):
+                if via != 'read_input_file' and (i % 3) and (list(comps), absmode) not in FIXED_NAMES:
                     continue
                 case = {'layout': {'links': layout['links'], 'dir_via_link': layout['dir_via_link'],
                                    'names': [[list(comps), absmode]]},
